@@ -41,6 +41,10 @@ def setup(J):
             for per in (1, 2, 3, 4):
                 for nl in (1, 0):
                     jobs.append(comp(f"splitter-n{n}-per{per}-nl{nl}", tier, {"comp": "splitter", "lines": n, "per": per, "newline": nl}, mode="delay", delay=0 if q else 1, budget=15))
+        # several files through ONE splitter instance
+        for lens in (("4,5", "7,8,2", "0,3", "3,3") if q else ("4,5", "7,8,2", "0,3", "3,3", "1,1,1", "6,0,6", "2,9")):
+            for per in (1, 3):
+                jobs.append(comp(f"splitter-files-{lens.replace(',', '-')}-per{per}", tier, {"comp": "splitter2", "lens": lens, "per": per}, mode="delay", delay=0 if q else 1, budget=15))
         for k in (0, 1, 2, 3):
             jobs.append(comp(f"concatenator-k{k}", tier, {"comp": "concatenator", "k": k, "two": 0}))
             jobs.append(comp(f"concatenator-k{k}-two", tier, {"comp": "concatenator", "k": k, "two": 1}))
@@ -54,5 +58,5 @@ def setup(J):
             for pat in ("*.txt", "*", "d/*.txt", "*/a.txt", "x?.txt", "nomatch*"):
                 jobs.append(comp(f"globber-t{ti}-{pat.replace('/', '_').replace('*', 'S').replace('?', 'Q')}", tier, {"comp": "globber", "pattern": pat, "tree": tr}, mode="delay", delay=0, budget=10))
         return {"level": "model_checking", "stages": [lambda ctx, prev: jobs],
-                "rule": "real components wired to recorder processes; FileCombinator/ParamCombinator: 1-3 (4) ports x lengths 0..2 (+ beyond the buffer with independent upstreams) x every map-iteration variant x schedules (DPOR closed for small, delay bound 1 otherwise): aligned tuples = Cartesian product, each once; IPSelectorSync: 1-3 ports x length <= 3 x ALL predicate outcome patterns; FileSplitter: 0..7 lines x 1..4 lines per split x {with, without} final newline; Concatenator: 0..3 inputs, one or two upstreams; with GroupByTag: every assignment of {untagged, x, y} to 0..3 (4) inputs; sources / readers: lists of length 0..3; FileGlobber: 6 patterns x 3 trees against an independent matcher",
+                "rule": "real components wired to recorder processes; FileCombinator/ParamCombinator: 1-3 (4) ports x lengths 0..2 (+ beyond the buffer with independent upstreams) x every map-iteration variant x schedules (DPOR closed for small, delay bound 1 otherwise): aligned tuples = Cartesian product, each once; IPSelectorSync: 1-3 ports x length <= 3 x ALL predicate outcome patterns; FileSplitter: 0..7 lines x 1..4 lines per split x {with, without} final newline, + 2-3 files through one instance; Concatenator: 0..3 inputs, one or two upstreams; with GroupByTag: every assignment of {untagged, x, y} to 0..3 (4) inputs; sources / readers: lists of length 0..3; FileGlobber: 6 patterns x 3 trees against an independent matcher",
                 "assumptions": J.BASE_ASSUMPTIONS + ["an exact multiple of the line limit produces a trailing empty part, which the statement allows", "selector streams have equal lengths (inconsistent closing is rejected by design)"]}
